@@ -291,6 +291,12 @@ func handle(r Req) (o Obs) {
 		}
 		heapObs(v, o.Aux)
 		roundTripValue(v, &o)
+	case "X": // an extension of a parameterized Object type, declared and round-tripped in one context
+		var x XR
+		if err := json.Unmarshal([]byte(r.In), &x); err != nil {
+			panic(err)
+		}
+		extCase(&x, &o)
 	case "L": // the lexer alone on a text: first token; and the parser on its tokens
 		firstToken(r.In, o.Aux)
 		parseObs(r.In, o.Aux)
